@@ -51,6 +51,7 @@ impl Read for R {
 }
 
 pub fn run(case: &str) -> String {
+    crate::util::note_current(case);
     let f: Vec<String> = case.split(' ').map(|s| s.to_string()).collect();
     let h = std::thread::spawn(move || {
         khttp::verif::set_test_clock(Some(0));
@@ -85,7 +86,7 @@ pub fn gen(ctx: &Ctx) {
     let mut out = Out::new(&ctx.dir, "printer");
     out.rule = "the four response entry points and write_request: status 100..999 with CR/LF-free reasons (incl. 200 with a custom reason), 0..4 user headers, \
                 {nothing, content-length, transfer-encoding: chunked} declared, body lengths dense around 0, 2047/2048/2049, 8191/8192/8193 (thorough: 131071..131073, 300000), \
-                reader piece sizes {1-byte, small, 1000, 4096, whole}, writer acceptance patterns (every short count of the first write for small heads; random short writes), date on/off. \
+                reader piece sizes {1-byte, small, 1000, 4096, whole}, writer acceptance patterns (every short count of the first write for small heads; random short writes), date on/off; chunk-size boundaries 15/16, 255/256, 4095/4096, 65535..65537, 131071..131073, 140000 as single chunks. \
                 non-trivial = a non-empty body".into();
     let lens: Vec<usize> = if ctx.thorough { vec![0, 1, 2, 100, 2047, 2048, 2049, 5000, 8191, 8192, 8193, 9000, 20000, 131071, 131072, 131073, 300000] }
                            else { vec![0, 1, 2, 100, 2047, 2048, 2049, 5000, 8191, 8192, 8193, 9000, 20000] };
@@ -141,6 +142,20 @@ pub fn gen(ctx: &Ctx) {
             let r = run(&case);
             out.emit(&case, &r, "B/first-write-sweep", true);
         }
+    }
+    // chunk-size lines at every hex-digit boundary and around the 128 KiB chunk buffer: one chunk of exactly that size
+    // (declared chunked: whole body in one piece; B: the body slice is one chunk), and the auto-detected path
+    for len in [15usize, 16, 255, 256, 4095, 4096, 65535, 65536, 65537, 131071, 131072, 131073, 140000] {
+        let body: Vec<u8> = (0..len).map(|i| b'a' + (i % 26) as u8).collect();
+        let te = format!("{}:{}", hex(b"transfer-encoding"), hex(b"chunked"));
+        for ep in ["B", "R", "Q"] {
+            let case = format!("{ep} 200 {} n [{te}] {} -", hex(b"OK"), hex(&body));
+            let r = run(&case);
+            out.emit(&case, &r, "chunk-size-boundary", true);
+        }
+        let case = format!("R 200 {} n [] {} -", hex(b"OK"), hex(&body));
+        let r = run(&case);
+        out.emit(&case, &r, "chunk-size-boundary/auto", true);
     }
     out.finish();
 }
